@@ -232,6 +232,11 @@ func c01RunHook(r *rand.Rand, sc c01Scenario, probeEvery bool, setup func(*dsSim
 			s.connect()
 		case "drop":
 			s.reconnect()
+		case "shutdown":
+			// what Run saves when it stops
+			s.e.node.blocks.Save(s.e.ctx)
+			s.e.node.txs.Save(s.e.ctx)
+			s.e.node.peers.Save(s.e.ctx)
 		}
 	}
 	s.checkCallbacks(2)
